@@ -514,8 +514,9 @@ fn gen_req(r: &mut Rng, mix: Mix, default: &Cfg, allow_drop: bool, shards: u16) 
 /// after SLOW_MS; 7 <= s < 14: the same with an Unavailable error (a "safe" error: the request may
 /// be sent again, but only after the error has been received).  Each with a speculative policy in
 /// the profile and five requests: not idempotent, idempotent, not idempotent with an own profile (max 1),
-/// not idempotent without a policy, idempotent with a policy of max_retry_count = 0.
-fn shape_scenario(s: u64) -> Scenario {
+/// not idempotent without a policy, idempotent with a policy of max_retry_count = 0; in the C06 mix a sixth:
+/// not idempotent, 100 ms client timeout, Unavailable answered at 65 ms, the re-sent frame unanswered at the timeout.
+fn shape_scenario(mix: Mix, s: u64) -> Scenario {
     let api = APIS[(s % 7) as usize];
     let first = if s < 7 { Reply::Ok } else { Reply::Err("Db.Unavailable:Quorum:2:1".into()) };
     let npages = if api.paged() { 2 } else { 1 };
@@ -526,17 +527,36 @@ fn shape_scenario(s: u64) -> Scenario {
     // max_retry_count = 0: a policy that allows no speculative execution at all
     let zero = Cfg { pol: 0, spec: Some((0, INTERVAL_MS)), cl: Consistency::Quorum };
     let mk = |idem: bool, profile: Option<Cfg>| Req { api, idem, profile, stmt_pol: None, stmt_cl: None, pages: script(), timeout_ms: None };
+    let mut reqs = vec![mk(false, None), mk(true, None), mk(false, Some(own)), mk(false, Some(nospec.clone())), mk(true, Some(zero))];
+    if mix == Mix::C06 {
+        // deterministic near-boundary timeout (every seed has these 14): not idempotent, no speculative
+        // policy, 100 ms statement timeout; Unavailable answered 65 ms in (a 20-30 ms stall still leaves it
+        // before the timer), so the next frame goes out ~35 ms before the timeout and is never answered in time
+        let near = vec![
+            Outcome { delay_ms: TIMEOUT_MS - 35, reply: Reply::Err("Db.Unavailable:Quorum:2:1".into()) },
+            Outcome { delay_ms: SLOW_MS, reply: Reply::Ok },
+        ];
+        reqs.push(Req {
+            api,
+            idem: false,
+            profile: Some(nospec),
+            stmt_pol: None,
+            stmt_cl: None,
+            pages: (0..npages).map(|_| near.clone()).collect(),
+            timeout_ms: Some(TIMEOUT_MS),
+        });
+    }
     Scenario {
         shards: if s % 2 == 1 && !matches!(api, Api::QI | Api::EI) { 2 } else { 0 },
         nnodes: 3,
         default,
-        reqs: vec![mk(false, None), mk(true, None), mk(false, Some(own)), mk(false, Some(nospec)), mk(true, Some(zero))],
+        reqs,
     }
 }
 
 fn gen_scenario(mix: Mix, sseed: u64, thorough: bool) -> Scenario {
     if sseed < SHAPES {
-        return shape_scenario(sseed);
+        return shape_scenario(mix, sseed);
     }
     let salt = match mix {
         Mix::C06 => 0xC06E_2E00_0000_0001u64,
